@@ -21,7 +21,12 @@ import itertools
 import random
 
 
+ROLE = "server"     # "client": the configuration field is [max_receive, route]
+
+
 def fmt(cfg, ops):
+    if ROLE == "client" and len(cfg) == 5:
+        cfg = (cfg[1] or cfg[3], cfg[4])
     return ";".join(",".join(str(x) for x in f) for f in [cfg] + ops)
 
 
@@ -46,10 +51,14 @@ def alphabet(v):
 
 
 def is_pub(op):
+    if ROLE == "client":
+        return op[0] == 1 and op[1] == 1 and op[4] in (1, 2)
     return op[0] == 1 and op[1] == 1
 
 
 def is_ctl(op, v):
+    if ROLE == "client":
+        return op[0] == 1 and ((op[1] == 1 and op[4] not in (1, 2)) or op[1] == 4 or (op[1] == 9 and v == 5))
     return op[0] == 1 and op[1] in ((4, 6, 7, 8, 9, 10) if v == 5 else (4, 6, 7, 8, 9))
 
 
@@ -448,8 +457,64 @@ def gen_shutdown(v, rng, n=4000):
     return cases
 
 
-def generate(v, rng, scale=1.0):
+def gen_client_flows(v, rng, n=8000):
+    """client role with exact bookkeeping of handler / protocol-service invocation numbers: PUBLISH of every
+    QoS to routed (t1, t2) and unrouted topics, completions in any order, PUBREL for known / unknown ids,
+    id reuse, receive maximum / in-flight limit, now and then a packet that ends the connection"""
     cases = []
+    for _ in range(n):
+        route = rng.choice([0, 1, 1])
+        lim = rng.choice([0, 0, 1, 2, 3])
+        ops = []
+        nh = 0
+        nc = 0
+        pend_h = []
+        pend_c = []
+        for _ in range(rng.randint(3, 16)):
+            r = rng.random()
+            pid = rng.randint(1, 4)
+            if r < 0.36:
+                q = rng.choice([0, 1, 1, 2, 2])
+                t = rng.choice([1, 1, 2, 3, 3, 0, 4])
+                al = 0
+                if v == 5 and rng.random() < 0.2:
+                    al = rng.randint(1, 3) if rng.random() < 0.9 else 17
+                    if rng.random() < 0.5:
+                        t = 0
+                ops.append(pub(q, pid, t, alias=al, plen=rng.randint(0, 2), retain=rng.randint(0, 1)))
+                if route and t in (1, 2) and al == 0:
+                    nh += 1
+                    pend_h.append(nh)
+                elif al == 0:
+                    nc += 1
+                    pend_c.append(nc)
+            elif r < 0.48:
+                ops.append((1, 4, pid))
+                nc += 1
+                pend_c.append(nc)
+            elif r < 0.66 and pend_h:
+                h = pend_h.pop(0) if rng.random() < 0.6 else pend_h.pop(rng.randrange(len(pend_h)))
+                ops.append((2, h, 0 if rng.random() < 0.85 else hres_choices(v, rng)))
+            elif r < 0.88 and pend_c:
+                c = pend_c.pop(0) if rng.random() < 0.6 else pend_c.pop(rng.randrange(len(pend_c)))
+                ops.append((3, c, rng.choice([2, 2, 2, 0, 1]) if v == 5 else rng.choice([0, 0, 0, 2, 1])))
+            elif r < 0.93:
+                ops.append(rng.choice([(1, 13), (1, 15), (1, 14)]))
+            elif r < 0.96:
+                ops.append((2, nh + 1, 0) if rng.random() < 0.5 else (3, nc + 1, 2 if v == 5 else 0))
+            else:
+                ops.append(rng.choice([(1, 2, pid), (1, 3, pid), (1, 5, pid), (1, 11, pid), (1, 12, pid), (1, 8),
+                                       (1, 9, 0, 0), (1, 9, 0, 5), (1, 6, pid, 1), (1, 7, pid, 1), (1, 10)]))
+        cases.append(";".join(",".join(str(x) for x in f) for f in [(lim, route)] + ops))
+    return cases
+
+
+def generate(v, rng, scale=1.0, role="server"):
+    global ROLE
+    ROLE = role
+    cases = []
+    if role == "client":
+        cases += gen_client_flows(v, rng, int(8000 * scale))
     cases += gen_alphabet(v, rng, full=scale >= 1.0)
     cases += gen_histories(v, rng, int(5000 * scale))
     cases += gen_aliases(v, rng, int(3000 * scale))
@@ -459,6 +524,7 @@ def generate(v, rng, scale=1.0):
     cases += gen_qos2_flows(v, rng, int(4000 * scale))
     cases += gen_ctl_stress(v, rng, int(6000 * scale))
     cases += gen_shutdown(v, rng, int(4000 * scale))
+    ROLE = "server"
     seen = set()
     out = []
     for c in cases:
